@@ -10,3 +10,19 @@ package worker
 //@   ensures[C13] workers-nonnil: forall j in 0..numWorkers :: result[j] != nil
 //@   loop 0 invariant 0 <= i && i <= numWorkers && len(group) == numWorkers && fresh(group) && !isnil(group)
 //@   loop 0 invariant forall j in 0..i :: group[j] != nil
+
+// Worker hand-off (channels, goroutines): outside the verified subset, assumed. A worker can only
+// be used after Group.Start has run (its context is set there): Send and GetOutput on a worker that
+// was never started dereference a nil context.
+//@ ghost *worker.Worker started bool
+//@ func (Group).Start
+//@   trusted goroutine start-up (channel protocol, outside the subset)
+//@   requires ctx != nil
+//@   assigns ghost started
+//@   ensures forall j in 0..len(g) :: g[j].started
+//@ func (*Worker).Send
+//@   trusted channel hand-off to the worker goroutine (outside the subset)
+//@   requires[C13,C18] worker-started: w != nil && w.started
+//@ func (*Worker).GetOutput
+//@   trusted channel hand-off from the worker goroutine (outside the subset)
+//@   requires[C13,C18] worker-started: w != nil && w.started
